@@ -38,3 +38,9 @@ Notation "'let*' x ':=' r 'in' k" := (bind r (fun x => k))
   (at level 200, x pattern, r at level 100, k at level 200).
 
 Definition is_ok {A} (r : Res A) : bool := match r with Ok _ => true | Err _ => false end.
+
+Lemma Ok_inj {A} (a b : A) : Ok a = Ok b -> a = b.
+Proof. intros H. injection H. auto. Qed.
+
+Lemma Some_inj {A} (a b : A) : Some a = Some b -> a = b.
+Proof. intros H. injection H. auto. Qed.
